@@ -52,7 +52,7 @@ result_t SimTransport::write(const uint8_t* data, size_t len) {
 result_t SimTransport::read(unsigned int timeout, const uint8_t** data, size_t* len) {
   if (!m_valid) return RESULT_ERR_DEVICE;
   if (timeout == 0) {
-    if (!m_world->ended) for (auto m : m_world->mons) m->onQuiescent();
+    if (!m_world->ended) for (auto m : m_world->mons) m->onQuiescent(!m_buf.empty());
     if (m_buf.empty()) return RESULT_ERR_TIMEOUT;
     *data = m_buf.data();
     *len = m_buf.size();
@@ -80,7 +80,7 @@ bool TReq::notify(result_t result, const SlaveSymbolString& slave) {
     restart = true;
   }
   m_world->lastResult[m_idx] = result;
-  m_world->evNotify(m_idx, result, s);
+  m_world->evNotify(m_idx, result, s, restart);
   if (!restart) {
     m_world->reqState[m_idx] = 2;
     if (m_deleteOnFinish) m_world->reqObj[m_idx] = nullptr;  // the handler deletes it now
@@ -107,7 +107,7 @@ void World::enqueue(int idx) {
   if (r != RESULT_OK) {  // refused (read-only): never in flight
     note("addRequest refused");
     reqState[idx] = 2;
-    evNotify(idx, r, Bytes());
+    evNotify(idx, r, Bytes(), false);
     if (sc.reqs[idx].kind == 1) { delete reqObj[idx]; reqObj[idx] = nullptr; }
   }
 }
@@ -171,7 +171,7 @@ void World::deliverSym(uint8_t v, int kind) {
 void World::onConsumed(size_t n) {
   for (size_t i = 0; i < n; i++) {
     int t = tr->m_tag[i];
-    if (t >= 0) evDeliver(syms[t].v, syms[t].kind);
+    if (t >= 0) evDeliver(syms[t].v, syms[t].kind, tr->m_buf.size() > i + 1);
   }
 }
 
@@ -381,7 +381,7 @@ void World::run() {
 
 result_t World::onRead(unsigned int timeout) {
   reads++;
-  if (!ended) for (auto m : mons) m->onQuiescent();
+  if (!ended) for (auto m : mons) m->onQuiescent(!tr->m_buf.empty());
   if (!ended) housekeeping();
   int lat = (int)tr->getLatency();
   auto endTimeout = [&]() { vp::vclockAdvanceMs((int)timeout + lat); return RESULT_ERR_TIMEOUT; };
